@@ -1970,6 +1970,12 @@ _PURE_DOTTED = {'textwrap.dedent': __import__('textwrap').dedent, 'textwrap.inde
                 'sys.getswitchinterval': lambda: 0.005, 'threading.active_count': lambda: 1}
 
 
+
+# `from textwrap import dedent`: the same pure functions bound by a from-import
+for _dotted, _f in list(_PURE_DOTTED.items()):
+    _m, _, _n = _dotted.rpartition('.')
+    _PURE_STDLIB.setdefault((_m, _n), _f)
+
 class ModRef:
     """A pedal module used as a value (`from pedal.sandbox import mocked`; mocked.X is looked up in that module)."""
 
